@@ -14,6 +14,7 @@ package gmtls
 //   2. GM ECC key agreement
 //   3. record / handshake layer drivers
 //   4. VerifConn: scriptable endpoint on the real record layer (C08)
+//   5. VerifParseMessage: canonical field printing of the handshake message parsers (C15 PM cases)
 
 import (
 	"net"
@@ -558,3 +559,154 @@ func (v *VerifConn) MarkComplete() {
 
 // Conn returns the wrapped connection.
 func (v *VerifConn) Conn() *Conn { return v.c }
+
+// ---------------------------------------------------------------------------
+// 5. parse a handshake message and print its fields canonically (C15 PM cases)
+// ---------------------------------------------------------------------------
+
+const verifHexDigits = "0123456789abcdef"
+
+func verifHex(b []byte) string {
+	if len(b) == 0 {
+		return "-"
+	}
+	out := make([]byte, 0, 2*len(b))
+	for _, x := range b {
+		out = append(out, verifHexDigits[x>>4], verifHexDigits[x&15])
+	}
+	return string(out)
+}
+
+func verifHex16(v uint16) string { return verifHex([]byte{byte(v >> 8), byte(v)}) }
+
+func verifBool(b bool) string {
+	if b {
+		return "1"
+	}
+	return "0"
+}
+
+func verifU16List(n int, at func(i int) uint16) string {
+	if n == 0 {
+		return "-"
+	}
+	out := ""
+	for i := 0; i < n; i++ {
+		if i > 0 {
+			out += "."
+		}
+		out += verifHex16(at(i))
+	}
+	return out
+}
+
+func verifBytesList(l [][]byte) string {
+	if len(l) == 0 {
+		return "-"
+	}
+	out := ""
+	for i, b := range l {
+		if i > 0 {
+			out += ","
+		}
+		if len(b) == 0 {
+			out += "."
+		} else {
+			out += verifHex(b)
+		}
+	}
+	return out
+}
+
+func verifStringList(l []string) string {
+	b := make([][]byte, len(l))
+	for i, s := range l {
+		b[i] = []byte(s)
+	}
+	return verifBytesList(b)
+}
+
+// VerifParseMessage calls unmarshal of a fresh message struct of handshake type
+// typ (the standard-layout certificateRequestMsg for 13; hasSignatureAndHash
+// applies to 13 and 15) on a copy of data and returns the parsed fields in the
+// canonical order:
+//
+//	 1: vers random sessionId cipherSuites compressionMethods nextProtoNeg serverName ocspStapling supportedCurves
+//	    supportedPoints ticketSupported sessionTicket supportedSignatureAlgorithms secureRenegotiationSupported
+//	    secureRenegotiation alpnProtocols scts
+//	 2: vers random sessionId cipherSuite compressionMethod nextProtoNeg nextProtos ocspStapling ticketSupported
+//	    secureRenegotiationSupported secureRenegotiation alpnProtocol scts
+//	 4: ticket  11: certificates  12: key  13: certificateTypes supportedSignatureAlgorithms certificateAuthorities
+//	14: (none)  15: signatureAlgorithm signature  16: ciphertext  20: verifyData  22: statusType response  67: proto
+//
+// Byte strings are lower-case hex ("-" when empty), uint16 lists 4-hex values joined
+// by ".", lists of byte strings joined by "," with "." for an empty element, booleans 0/1.
+// known is false for a type outside this list.  No recover here: a panic of the
+// parser propagates to the caller.
+func VerifParseMessage(typ uint8, hasSigAndHash bool, data []byte) (known bool, ok bool, fields []string) {
+	data = append([]byte(nil), data...)
+	switch typ {
+	case typeClientHello:
+		m := new(clientHelloMsg)
+		ok = m.unmarshal(data)
+		fields = []string{verifHex16(m.vers), verifHex(m.random), verifHex(m.sessionId),
+			verifU16List(len(m.cipherSuites), func(i int) uint16 { return m.cipherSuites[i] }),
+			verifHex(m.compressionMethods), verifBool(m.nextProtoNeg), verifHex([]byte(m.serverName)), verifBool(m.ocspStapling),
+			verifU16List(len(m.supportedCurves), func(i int) uint16 { return uint16(m.supportedCurves[i]) }),
+			verifHex(m.supportedPoints), verifBool(m.ticketSupported), verifHex(m.sessionTicket),
+			verifU16List(len(m.supportedSignatureAlgorithms), func(i int) uint16 { return uint16(m.supportedSignatureAlgorithms[i]) }),
+			verifBool(m.secureRenegotiationSupported), verifHex(m.secureRenegotiation), verifStringList(m.alpnProtocols), verifBool(m.scts)}
+	case typeServerHello:
+		m := new(serverHelloMsg)
+		ok = m.unmarshal(data)
+		fields = []string{verifHex16(m.vers), verifHex(m.random), verifHex(m.sessionId), verifHex16(m.cipherSuite),
+			verifHex([]byte{m.compressionMethod}), verifBool(m.nextProtoNeg), verifStringList(m.nextProtos), verifBool(m.ocspStapling),
+			verifBool(m.ticketSupported), verifBool(m.secureRenegotiationSupported), verifHex(m.secureRenegotiation),
+			verifHex([]byte(m.alpnProtocol)), verifBytesList(m.scts)}
+	case typeNewSessionTicket:
+		m := new(newSessionTicketMsg)
+		ok = m.unmarshal(data)
+		fields = []string{verifHex(m.ticket)}
+	case typeCertificate:
+		m := new(certificateMsg)
+		ok = m.unmarshal(data)
+		fields = []string{verifBytesList(m.certificates)}
+	case typeServerKeyExchange:
+		m := new(serverKeyExchangeMsg)
+		ok = m.unmarshal(data)
+		fields = []string{verifHex(m.key)}
+	case typeCertificateRequest:
+		m := &certificateRequestMsg{hasSignatureAndHash: hasSigAndHash}
+		ok = m.unmarshal(data)
+		fields = []string{verifHex(m.certificateTypes),
+			verifU16List(len(m.supportedSignatureAlgorithms), func(i int) uint16 { return uint16(m.supportedSignatureAlgorithms[i]) }),
+			verifBytesList(m.certificateAuthorities)}
+	case typeServerHelloDone:
+		m := new(serverHelloDoneMsg)
+		ok = m.unmarshal(data)
+		fields = []string{}
+	case typeCertificateVerify:
+		m := &certificateVerifyMsg{hasSignatureAndHash: hasSigAndHash}
+		ok = m.unmarshal(data)
+		fields = []string{verifHex16(uint16(m.signatureAlgorithm)), verifHex(m.signature)}
+	case typeClientKeyExchange:
+		m := new(clientKeyExchangeMsg)
+		ok = m.unmarshal(data)
+		fields = []string{verifHex(m.ciphertext)}
+	case typeFinished:
+		m := new(finishedMsg)
+		ok = m.unmarshal(data)
+		fields = []string{verifHex(m.verifyData)}
+	case typeCertificateStatus:
+		m := new(certificateStatusMsg)
+		ok = m.unmarshal(data)
+		fields = []string{verifHex([]byte{m.statusType}), verifHex(m.response)}
+	case typeNextProtocol:
+		m := new(nextProtoMsg)
+		ok = m.unmarshal(data)
+		fields = []string{verifHex([]byte(m.proto))}
+	default:
+		return false, false, nil
+	}
+	return true, ok, fields
+}
